@@ -162,12 +162,18 @@ func c07get(p *Program, r *Report, rule string) {
 		})
 	}
 	// who calls the pool Put functions
+	inlined := 0
+	_ = inlined
 	for callee, allowed := range map[string][]string{
 		"putFlateReader": {"msgReader.putFlateReader"}, "putFlateWriter": {"msgWriter.putFlateWriter"},
 		"putBufioReader": {"msgReader.close"}, "putBufioWriter": {"msgWriter.close"}, "slidingWindow.close": {"msgReader.close"},
 	} {
-		fn := p.Func(callee)
+		fn := p.FuncCallee(callee)
 		if fn == nil {
+			if p.absorbed[callee] != nil {
+				inlined++
+				r.Exists(rule+".callers", allowed[0], callee+" (inlined)", p.FuncPos(p.absorbed[callee]), true, callee+" is called only from "+strings.Join(allowed, ", "), "inlined into its only caller")
+			}
 			continue
 		}
 		for _, cs := range p.CallersOf(fn) {
@@ -411,18 +417,25 @@ func c07ws(p *Program, r *Report, rule string) {
 // ---- C15 -------------------------------------------------------------------------------------------------------------
 
 func runC15(p *Program, r *Report) {
-	if fn := p.Func("Conn.ping"); fn != nil {
-		p.forAllPaths(r, "C15.reg", fn, "register, write, wait", Opts{},
+	// Ping is explored with ping looked through, so that the rule reads the same whether ping exists or was inlined
+	if fn := p.Func("Conn.Ping"); fn != nil {
+		p.forAllPaths(r, "C15.reg", fn, "register, write, wait", Opts{Inline: p.inlineSet("Conn.ping")},
 			"ping creates a buffered channel, stores it in activePings[p] under activePingsMu before writeControl(ctx, opPing, []byte(p)), defers the removal, and returns nil only after receiving from that very channel; closed ↦ net.ErrClosed; ctx.Done() ↦ an error wrapping ctx.Err() with %w",
 			func(pa *Path) (bool, string) {
 				var mk *Expr
 				var reg, wr, lock, unlock = -1, -1, -1, -1
+				payload := ""
+				for _, e := range pa.Events {
+					if e.Kind == "mapupdate" && argKeyAV(e.Args, 0) == "Conn.activePings" {
+						payload = argKeyAV(e.Args, 1)
+					}
+				}
 				for i, e := range pa.Events {
 					switch {
 					case e.Kind == "mapupdate" && argKeyAV(e.Args, 0) == "Conn.activePings":
 						reg = i
-						if argKeyAV(e.Args, 1) != "param:p" {
-							return false, "registered under key " + argKeyAV(e.Args, 1)
+						if got := expandCalls(pa, payload); got != "strconv.Itoa(convert:int(atomic.AddInt32(&Conn.pingCounter,1)))" {
+							return false, "registered under key " + got + " (want the decimal rendering of the atomic increment of pingCounter)"
 						}
 						m, ok := stripConvAll(e.Args[2]).(*Expr)
 						if !ok || m.Op != "makechan" {
@@ -431,7 +444,7 @@ func runC15(p *Program, r *Report) {
 						mk = m
 					case isCall(e, "Conn.writeControl") && !e.Deferred:
 						wr = i
-						if argKey(e, 1) != "param:ctx" || argKey(e, 2) != "9" || argKey(e, 3) != "convert:[]byte(param:p)" {
+						if argKey(e, 1) != "param:ctx" || argKey(e, 2) != "9" || argKey(e, 3) != "convert:[]byte("+payload+")" {
 							return false, "ping frame written as writeControl(" + argKey(e, 1) + "," + argKey(e, 2) + "," + argKey(e, 3) + ")"
 						}
 					case isCall(e, "(*sync.Mutex).Lock") && argKey(e, 0) == "&Conn.activePingsMu" && lock < 0:
@@ -455,7 +468,7 @@ func runC15(p *Program, r *Report) {
 				// deferred cleanup closure
 				okDefer := false
 				for _, e := range pa.Events {
-					if e.Kind == "defer" && e.Callee == "Conn.ping$1" {
+					if e.Kind == "defer" && (e.Callee == "Conn.ping$1" || e.Callee == "Conn.Ping$1") {
 						okDefer = true
 					}
 				}
@@ -479,18 +492,11 @@ func runC15(p *Program, r *Report) {
 						return false, "nil returned without a receive from its own pong channel"
 					}
 				case sel != nil && sel.Chan.Key() == "Conn.closed":
-					if ret.Key() != "G:net.ErrClosed" {
+					if !wrapsKey(pa, ret, func(k string) bool { return k == "G:net.ErrClosed" }) {
 						return false, "closed case returns " + ret.Key()
 					}
 				case sel != nil && strings.HasPrefix(sel.Chan.Key(), "call:invoke context.Context.Done@"):
-					ok := false
-					for _, e := range pa.Calls("fmt.Errorf") {
-						f, _ := avStr(e.Args[0])
-						va := varargsOf(pa, e)
-						if e.Res.Key() == ret.Key() && strings.Contains(f, "%w") && len(va) == 1 && keyIs(va[0], "call:invoke context.Context.Err@@") {
-							ok = true
-						}
-					}
+					ok := ret.Key() != "" && !keyIs(ret, "call:invoke context.Context.Err@@") && wrapsKey(pa, ret, func(k string) bool { return pat("call:invoke context.Context.Err@@").MatchString(k) })
 					if !ok {
 						return false, "ctx.Done case does not wrap ctx.Err() with %w"
 					}
@@ -512,7 +518,11 @@ func runC15(p *Program, r *Report) {
 				return true, ""
 			})
 	}
-	if fn := p.FuncOpt("Conn.ping$1"); fn != nil {
+	pingCleanup := p.FuncOpt("Conn.ping$1")
+	if pingCleanup == nil {
+		pingCleanup = p.FuncOpt("Conn.Ping$1")
+	}
+	if fn := pingCleanup; fn != nil {
 		p.forAllPaths(r, "C15.reg", fn, "removal under the mutex", Opts{}, "the deferred closure deletes activePings[p] under activePingsMu", func(pa *Path) (bool, string) {
 			li := eventIndex(pa, 0, func(e *Event) bool { return isCall(e, "(*sync.Mutex).Lock") })
 			di := eventIndex(pa, 0, func(e *Event) bool { return isCall(e, "builtin delete") })
@@ -524,17 +534,22 @@ func runC15(p *Program, r *Report) {
 		})
 	}
 	if fn := p.Func("Conn.Ping"); fn != nil {
-		p.forAllPaths(r, "C15.unique", fn, "distinct payload per call", Opts{}, "Ping's payload is strconv.Itoa(int(atomic.AddInt32(&c.pingCounter, 1))): the result of the atomic increment, distinct for concurrent calls", func(pa *Path) (bool, string) {
-			pg := pa.Calls("Conn.ping")
-			if len(pg) != 1 {
-				return false, "ping not called once"
+		p.forAllPaths(r, "C15.unique", fn, "distinct payload per call", Opts{Inline: p.inlineSet("Conn.ping")}, "Ping's payload is strconv.Itoa(int(atomic.AddInt32(&c.pingCounter, 1))): the result of the atomic increment, distinct for concurrent calls; exactly one increment and one ping frame per call", func(pa *Path) (bool, string) {
+			if n := len(pa.Calls("atomic.AddInt32")); n != 1 {
+				return false, fmt.Sprintf("%d atomic increments", n)
 			}
-			got := expandCalls(pa, argKey(pg[0], 2))
-			if got != "strconv.Itoa(convert:int(atomic.AddInt32(&Conn.pingCounter,1)))" {
-				return false, "payload " + got
+			wc := pa.Calls("Conn.writeControl")
+			if len(wc) > 1 {
+				return false, "more than one ping frame"
 			}
-			if argKey(pg[0], 1) != "param:ctx" {
-				return false, "ctx " + argKey(pg[0], 1)
+			for _, e := range wc {
+				got := expandCalls(pa, argKey(e, 3))
+				if got != "convert:[]byte(strconv.Itoa(convert:int(atomic.AddInt32(&Conn.pingCounter,1))))" {
+					return false, "payload " + got
+				}
+				if argKey(e, 1) != "param:ctx" {
+					return false, "ctx " + argKey(e, 1)
+				}
 			}
 			return true, ""
 		})
